@@ -52,10 +52,10 @@ PROPS["C07"] = {
 PROPS["C17"] = {
     "modules": ["CM.Props.C17"],
     "level": "other",
-    "design_ref": "DESIGN.md §6 C17",
-    "technique": "Lean 4 theorems for clause (a) over the filterRaw model (filterRaw_only_lt, filter_none_id: all predicates, all raw texts) + byte correspondence of filterRaw with the model + clause (b) checked by running the Lean transcription of the WHATWG tokenizer over the implementation's filtered output (exhaustive short raw runs, fragments, whole renderings)",
-    "text": "Model.filterRaw is html_renderer.go's filterRaw with its states, index jumps and htmlTagEnd; it is compared byte for byte with the real filterRaw (through the verif-tagged wrapper) on every generated raw run. Clause (a) is a theorem: for every predicate and raw text the output is the input with some '<' replaced by '&lt;' and nothing else (OnlyLt), and a predicate rejecting nothing is the identity. Clause (b) - no start tag with a rejected name is visible to an HTML tokenizer - is stated in Lean against Spec.startTags (tag-related WHATWG tokenizer states) but its simulation proof is not done (C17_no_rejected_start_tag_target); it is decided by running Spec.startTags over the filtered output of all strings <= 5 (quick) / 6 (thorough) over a 15-symbol alphabet, random fragment runs and whole renderings under GFM / reject-all / name-set predicates. Hence 'other', not 'proof'.",
-    "note": "Spec.startTags is my transcription of WHATWG 13.2.5 (data, tag, attribute, comment, bogus comment, markup declaration, DOCTYPE states); it is cross-checked against golang.org/x/net/html's tokenizer on the generated runs (never as a verdict). It does not model RAWTEXT/RCDATA/script states: clause (b) is only evaluated for predicates that reject every raw-text element, for which those states are unreachable exactly when (b) holds.",
+    "design_ref": "DESIGN.md §6 C17, §13",
+    "technique": "Lean 4 theorems over the filterRaw model: clause (a) for all predicates and raw texts (filterRaw_only_lt, filter_none_id); clause (b) as a tokenizer theorem about ARBITRARY byte strings (startTags_of_sitesOK: no '<'+letter followed by a rejected name => the WHATWG tokenizer, newline preprocessing included, emits no rejected start tag) + filterRaw_sitesOK + composition over separately filtered raw nodes (no_rejected_start_tag_nodes); FilterTagGFM proved name-closed over the names regenerated from the source; byte correspondence of filterRaw with the model; the Lean tokenizer run over the implementation's filtered output (exhaustive short raw runs, tag-grammar runs, fragments, whole renderings)",
+    "text": "Model.filterRaw is html_renderer.go's filterRaw (repaired in this work to be stateless: every '<' is examined on its own; three defects of the stateful version were found, two of them by the proof attempt) and is compared byte for byte with the real filterRaw on every generated raw run. Clause (a) is a theorem: for every predicate and raw text the output is the input with some '<' replaced by '&lt;' and nothing else (OnlyLt); a predicate rejecting nothing is the identity. Clause (b): startTags_of_sitesOK proves for EVERY byte string that if no '<' followed by an ASCII letter is followed by a name the predicate rejects, then Spec.startTags (WHATWG newline preprocessing + all tag-related tokenizer states) contains no rejected name, whatever comments, quoted attribute values or tags surround it; filterRaw_sitesOK proves the filter establishes that premise; no_rejected_start_tag(_nodes) conclude for one raw text and for any number of raw nodes filtered separately and concatenated (the lines of an HTML block). Hypothesis NameClosed p (p n -> p (n.takeWhile nameChar)) is proved for FilterTagGFM by kernel evaluation over the names regenerated from html_renderer.go and for every predicate given by a list of element names; without it the statement is proved false (a predicate rejecting 's_x' but not 's'). The lift of (a) and (b) from raw nodes to the whole rendered page (renderer tags go through the same predicate, text is escaped) is not yet a theorem in this commit: it is decided by running Spec.startTags and the only-'<' comparison over whole renderings under GFM / reject-all / name-set predicates. Hence 'other'.",
+    "note": "Spec.startTags is my transcription of WHATWG 13.2.3.5 + 13.2.5 (data, tag, attribute, comment, bogus comment, markup declaration, DOCTYPE states), cross-checked against golang.org/x/net/html's tokenizer on the generated runs (never as a verdict). It does not model RAWTEXT/RCDATA/script states: (b) is evaluated for predicates that reject every raw-text element, for which those states are unreachable exactly when (b) holds.",
 }
 
 PROPS["C11"] = {
